@@ -134,6 +134,34 @@ func ruleCodecGlue(c *Ctx) {
 			bad = "expected failing paths for the size and the type byte"
 		}
 		c.Check(bad == "", "decBlock:header-errors", p.Pos(fd), "size and type reads: error examined, returned at once", "Serializer.decBlock: "+bad, "a blob cut inside a block header")
+		// the empty block (size 0 for an empty destination — what the writer emits for the unused strings section) is accepted
+		nEmpty := 0
+		for _, sp := range sps {
+			if !sp.Feasible() || sp.RetNode == nil || len(sp.Ret) != 1 || sp.Ret[0].String() != "nil" {
+				continue
+			}
+			sz0, dst0 := false, false
+			for _, cd := range sp.Conds {
+				if cd.Other == "" && cd.Op == token.EQL && cd.R.IsConst() && cd.R.K == 0 {
+					if strings.Contains(cd.L.String(), "ReadUvarint(") {
+						sz0 = true
+					}
+					if cd.L.String() == "len(P:dst)" {
+						dst0 = true
+					}
+				}
+			}
+			launches := false
+			for _, ef := range sp.Effects {
+				if ef.Kind == "go" || ef.Kind == "call" && strings.HasSuffix(ef.Target, "bytes.Buffer).Next") {
+					launches = true
+				}
+			}
+			if sz0 && dst0 && !launches {
+				nEmpty++
+			}
+		}
+		c.Check(nEmpty >= 1, "decBlock:empty-block", p.Pos(fd), "size 0 with an empty destination returns nil without reading further", "Serializer.decBlock has no path that accepts an empty block (declared size 0, empty destination): the writer emits exactly that for the strings section, so every blob would be refused", "any round trip")
 		// decoder goroutines: decode into dst, final error into *dstErr as the last action
 		nGo := 0
 		ast.Inspect(fd.Body, func(n ast.Node) bool {
